@@ -1,131 +1,57 @@
-(* Statement-level labelled transition system of the strax.Context code that the worker threads of a
-   multi-run call share (strax/context.py).  Shared state: `_plugin_class_registry` (a dict) and
-   `_fixed_plugin_cache` (None, or {context_hash: dict}).  One transition of a thread = one *labelled
-   source line* of that code (a line that mentions the registry or the cache) together with the purely
-   thread-local code up to the next labelled line - exactly the granularity of the line-level
-   interleaver (harness/props/c15_interleave.py), so a schedule (list of thread ids) can be replayed on
-   the real code step by step and the sequences of labels compared.
+(* Model of the strax.Context code shared by the worker threads of a multi-run call, AS REPAIRED by
+   /repo commit d202a14 (strax/context.py).  (The transition system of the code before that commit is
+   kept in Model/CtxRacePinned.v together with the interleavings that crash it.)
 
-   Labels (the harness resolves them to source lines by pattern, see c15_ctx.LABELS):
-     1  _get_plugins        `for pc in self._plugin_class_registry.values()`     (iteration)
-     2  _plugins_are_cached `... or self._fixed_plugin_cache is None`
-     3  _context_hash       `for data_type, plugin in self._plugin_class_registry.items()` (iteration)
-     4  _plugins_are_cached `if context_hash not in self._fixed_plugin_cache`
-     5  _plugins_are_cached `plugin_cache = self._fixed_plugin_cache[context_hash]`
-     6  _plugins_are_cached `all([t in plugin_cache for t in targets])`    (two hits for one target)
-     7  __get_plugin        `if data_type not in self._plugin_class_registry`
-     8  __get_plugin        `plugin = self._plugin_class_registry[data_type]()`
-     9  _plugins_to_cache   `if self._fixed_plugin_cache is None`
-     10 _plugins_to_cache   `self._fixed_plugin_cache = {context_hash: dict()}`   (first branch)
-     11 _plugins_to_cache   `elif context_hash not in self._fixed_plugin_cache`
-     13 _plugins_to_cache   `self._fixed_plugin_cache[context_hash][target] = plugin`
-     14 __get_requested_plugins_from_cache `cached_plugins = self._fixed_plugin_cache[self._context_hash()]`
-     15 __get_requested_plugins_from_cache `for target, plugin in cached_plugins.items()`  (iteration)
-     16 register            `old_plugin_class = self._plugin_class_registry.get(p, None)`
-     17 register            `self._plugin_class_registry[p] = plugin_class`
-     18 register            `currently_registered = self._plugin_class_registry.get(d)`
-     19 register            `del self._plugin_class_registry[d]`
-     20 register            `for plugin in self._plugin_class_registry.values()`   (iteration)
-     21 key_for             `if context_hash in self._fixed_plugin_cache`
-     22 key_for             `plugins = self._fixed_plugin_cache[self._context_hash()]`
-     23 get_iter            `for k in list(self._plugin_class_registry.keys())`  (snapshot, then loop hits)
-     24 get_iter            `del self._plugin_class_registry[k]`
-     25 is_stored           `plugin = self._plugin_class_registry[target]`
-     26 stored_dependencies `plugin = self._plugin_class_registry[target]()`
+   The repaired code has three kinds of statements touching the shared maps:
+     * `_get_plugins` and `key_for` run under the module-level re-entrant lock _PLUGIN_RESOLUTION_LOCK.
+       Every access to `_fixed_plugin_cache` happens inside one of these two functions.  They are
+       modelled as ATOMIC SECTIONS: big-step functions from (registry in effect, plugin cache) to
+       (new cache, outcome), mirroring the Python functions `_plugins_are_cached`, `_plugins_to_cache`,
+       `__get_requested_plugins_from_cache`, `__get_plugin`, `_get_plugins`, `key_for` recursion by
+       recursion, and producing the sequence of labelled source lines they execute (for the
+       correspondence with the line-level interleaver).
+     * get_iter, for several same-kind targets, does
+           self = copy(self); self._plugin_class_registry = self._plugin_class_registry.copy()
+       before `self.register(temporary merge plugin)`: from there to the end of the call the registry is
+       PRIVATE to the calling thread (register, the cleanup loop, is_stored / stored_dependencies reads
+       and every iteration over the registry act on the copy).
+     * everything else only READS the context's own registry, which no load ever writes.
+   One transition of a thread = one item of its call skeleton: an atomic section, or a group of
+   statements acting on private / never-written data.  The harness checks on the real code, at every
+   labelled line, that cache statements run with the lock held and registry writes hit a private copy.
 
-   Dictionaries are insertion-ordered association lists with a structural version counter.  A dict
-   iterator remembers the size and version at creation; `next` on a dict whose size changed is the
-   crash transition "dictionary changed size during iteration" (CPython's check); a structural change
-   that restored the size is flagged as a hazard (CPython's behaviour then depends on the table
-   layout).  `d[k]` / `del d[k]` on a missing key is the KeyError crash transition.
-
-   The context hash is constant in a multi-run call (config and non-temporary registry entries do not
-   change; temporary entries are excluded from the hash), so the outer cache dict has at most the one
-   key and is represented by the index of its inner dict in a heap of inner dicts (a thread can hold a
-   reference to an inner dict that has meanwhile been replaced).
-
-   What the unmodelled callers (get_iter, get_components, stored_dependencies, is_stored) do to the
-   shared maps is a straight-line *skeleton* of calls into the modelled functions, extracted from a
-   sequential run of the real code by the harness and validated against it (same label sequence). *)
+   Labels are those of Model/CtxRacePinned.v plus
+     27 get_iter  `self._plugin_class_registry = self._plugin_class_registry.copy()`.
+   Errors: K_KEY (KeyError; swallowed inside estimate_run_start_and_end by _make_progress_bar),
+   K_MODEL (fuel of the model exhausted / a statement the repaired code cannot execute). *)
 From SV Require Import Base.Prelude.
 
 Definition name := Z.
 Definition is_temp (n : name) : bool := 1000 <=? n.
+Definition reg := list (name * Z).            (* _plugin_class_registry: data type -> class id *)
+Definition cache := option (list name).       (* _fixed_plugin_cache: None | keys of the inner dict *)
 
-(* ------------------------------------------------------------------ dictionaries *)
-Record dict := mkdict { d_items : list (name * Z); d_ver : nat }.
-Definition d_empty : dict := mkdict [] 0.
-Definition d_size (d : dict) : nat := length (d_items d).
+Definition L_GP : Z := 1.   Definition L_PAC_NONE : Z := 2.  Definition L_CH : Z := 3.
+Definition L_PAC_IN : Z := 4.  Definition L_PAC_GET : Z := 5.  Definition L_PAC_ALL : Z := 6.
+Definition L_GPL_NOTIN : Z := 7.  Definition L_GPL_NEW : Z := 8.
+Definition L_PTC_NONE : Z := 9.  Definition L_PTC_INIT : Z := 10.  Definition L_PTC_NOTIN : Z := 11.
+Definition L_PTC_SET : Z := 13.  Definition L_RFC_GET : Z := 14.  Definition L_RFC_ITER : Z := 15.
+Definition L_REG_GET : Z := 16.  Definition L_REG_SET : Z := 17.  Definition L_REG_GET2 : Z := 18.
+Definition L_REG_ITER : Z := 20.
+Definition L_KF_IN : Z := 21.  Definition L_KF_GET : Z := 22.
+Definition L_GI_LOOP : Z := 23.  Definition L_GI_DEL : Z := 24.
+Definition L_IS_READ : Z := 25.  Definition L_COPY : Z := 27.
 
-Fixpoint al_get (k : name) (l : list (name * Z)) : option Z :=
-  match l with [] => None | (k', v) :: r => if k' =? k then Some v else al_get k r end.
-Fixpoint al_set (k : name) (v : Z) (l : list (name * Z)) : list (name * Z) :=
-  match l with [] => [(k, v)] | (k', v') :: r => if k' =? k then (k', v) :: r else (k', v') :: al_set k v r end.
-Fixpoint al_del (k : name) (l : list (name * Z)) : list (name * Z) :=
-  match l with [] => [] | (k', v') :: r => if k' =? k then r else (k', v') :: al_del k r end.
-
-Definition d_get (k : name) (d : dict) : option Z := al_get k (d_items d).
-Definition d_mem (k : name) (d : dict) : bool := match d_get k d with Some _ => true | None => false end.
-Definition d_set (k : name) (v : Z) (d : dict) : dict :=
-  if d_mem k d then mkdict (al_set k v (d_items d)) (d_ver d)
-  else mkdict (al_set k v (d_items d)) (S (d_ver d)).
-Definition d_del (k : name) (d : dict) : option dict :=
-  if d_mem k d then Some (mkdict (al_del k (d_items d)) (S (d_ver d))) else None.
-Definition d_keys (d : dict) : list name := map fst (d_items d).
-
-Record shared := mkshared { sh_reg : dict; sh_cur : option nat; sh_heap : list dict }.
-
-Inductive dref := DReg | DCache (i : nat).
-Definition deref (sh : shared) (r : dref) : dict :=
-  match r with DReg => sh_reg sh | DCache i => nth i (sh_heap sh) d_empty end.
-
-Record iter := mkiter { it_pos : nat; it_size : nat; it_ver : nat }.
-
-Fixpoint set_nth {A} (i : nat) (x : A) (l : list A) : list A :=
-  match l with [] => [] | y :: r => match i with O => x :: r | S j => y :: set_nth j x r end end.
-
-(* ------------------------------------------------------------------ thread code *)
-Inductive task :=
-(* labelled hits *)
-| HIter (l : Z) (d : dref) (it : option iter)
-| HPacNone (t : name) | HPacIn (t : name) | HPacGet (t : name) | HPacAll1 (t : name) (i : nat) | HPacAll2
-| HGplNotin (t : name) | HGplNew (t : name)
-| HPtcNone (t : name) (c : Z) | HPtcInit (t : name) (c : Z) | HPtcNotin (t : name) (c : Z)
-| HPtcSet (t : name) (c : Z)
-| HRfcGet (t : name)
-| HRegGet (t : name) (c : Z) | HRegSet (t : name) (c : Z) (old : option Z)
-| HRegGet2 (t : name) (o : Z) | HRegDel (t : name)
-| HKfIn (t : name) | HKfGet (t : name)
-| HSnap | HLoop (rest : list name) | HDel (k : name) (rest : list name)
-| HRead (l : Z) (t : name)
-(* macros: thread-local glue, expanded when they reach the top of the stack *)
-| MGetPlugin (t : name) | MGetPluginBranch (t : name)
-| MGetPlugins (ts : list name) | MGPLoop (pending acc : list name)
-| MKeyFor (t : name) | MKeyForBranch (t : name)
-| MRfcAfter (t : name) (i : nat) | MKfAfter (t : name) (i : nat)
-| MEstimate (ts : list name) (nsf : nat) | MEstLoop (nsf : nat) | MMark.
-
-(* crash kinds *)
-Definition K_ITER : Z := 1.     (* RuntimeError: dictionary changed size during iteration *)
-Definition K_KEY : Z := 2.      (* KeyError: missing key *)
-Definition K_HAZARD : Z := 3.   (* dict structurally changed during an iteration, size restored *)
-Definition K_MODEL : Z := 4.    (* model out of fuel / ill-formed program (never on validated inputs) *)
-
-Inductive status := Running | Done | Crashed (kind : Z) (lbl : Z).
-
-Record thread := mkthread {
-  th_stack : list task;
-  th_status : status;
-  th_rb : bool;                 (* return value of the last _plugins_are_cached *)
-  th_names : list name;         (* keys of the dict returned by the last _get_plugins *)
-  th_trace : list Z;            (* labels executed, most recent first *)
-  th_got : list (list name) }.  (* results of the _get_plugins calls, most recent first *)
+Definition K_KEY : Z := 2.
+Definition K_MODEL : Z := 4.
 
 Record cfgm := mkcfgm {
   c_deps : list (name * list name);                  (* depends_on per data type *)
   c_setorder : list (list name * list name);         (* list(set(xs)) as observed on CPython *)
-  c_fuel : nat }.
+  c_fuel : nat }.                                    (* recursion depth / safety counter of the loops *)
 
+Fixpoint memz (x : Z) (l : list Z) : bool :=
+  match l with [] => false | y :: r => (x =? y) || memz x r end.
 Fixpoint list_eqb (a b : list Z) : bool :=
   match a, b with
   | [], [] => true
@@ -138,241 +64,250 @@ Fixpoint lookup_z {B} (k : Z) (tbl : list (Z * B)) : option B :=
   match tbl with [] => None | (k', v) :: r => if k' =? k then Some v else lookup_z k r end.
 Definition deps_of (c : cfgm) (t : name) : list name :=
   match lookup_z t (c_deps c) with Some l => l | None => [] end.
-Fixpoint memz (x : Z) (l : list Z) : bool :=
-  match l with [] => false | y :: r => (x =? y) || memz x r end.
 Fixpoint dedupe (l : list Z) : list Z :=
   match l with [] => [] | x :: r => if memz x r then dedupe r else x :: dedupe r end.
-(* list(set(xs)): the observed order if the harness recorded it, else some deduplicated order *)
 Definition set_order (c : cfgm) (l : list name) : list name :=
   match lookup_l l (c_setorder c) with Some o => o | None => dedupe l end.
 
-Definition L_GP : Z := 1.   Definition L_PAC_NONE : Z := 2.  Definition L_CH : Z := 3.
-Definition L_PAC_IN : Z := 4.  Definition L_PAC_GET : Z := 5.  Definition L_PAC_ALL : Z := 6.
-Definition L_GPL_NOTIN : Z := 7.  Definition L_GPL_NEW : Z := 8.
-Definition L_PTC_NONE : Z := 9.  Definition L_PTC_INIT : Z := 10.  Definition L_PTC_NOTIN : Z := 11.
-Definition L_PTC_SET : Z := 13.  Definition L_RFC_GET : Z := 14.  Definition L_RFC_ITER : Z := 15.
-Definition L_REG_GET : Z := 16.  Definition L_REG_SET : Z := 17.  Definition L_REG_GET2 : Z := 18.
-Definition L_REG_DEL : Z := 19.  Definition L_REG_ITER : Z := 20.
-Definition L_KF_IN : Z := 21.  Definition L_KF_GET : Z := 22.
-Definition L_GI_LOOP : Z := 23.  Definition L_GI_DEL : Z := 24.
+Definition mem_reg (t : name) (R : reg) : bool := existsb (fun kv => fst kv =? t) R.
+Fixpoint reg_set (t : name) (v : Z) (R : reg) : reg :=
+  match R with
+  | [] => [(t, v)]
+  | (k, v') :: r => if k =? t then (k, v) :: r else (k, v') :: reg_set t v r
+  end.
+Definition reg_get (t : name) (R : reg) : option Z := lookup_z t R.
 
-Definition ctx_hash : list task := [HIter L_CH DReg None].
+(* ------------------------------------------------------------------ atomic sections *)
+(* N + 1 hits of the `for` line of an iteration over a dict with N entries *)
+Definition iter_tr (l : Z) (n : nat) : list Z := repeat l (S n).
+Definition hash_tr (R : reg) : list Z := iter_tr L_CH (length R).              (* _context_hash *)
 
-Definition label_of (h : task) : Z :=
-  match h with
-  | HIter l _ _ => l
-  | HPacNone _ => L_PAC_NONE | HPacIn _ => L_PAC_IN | HPacGet _ => L_PAC_GET
-  | HPacAll1 _ _ => L_PAC_ALL | HPacAll2 => L_PAC_ALL
-  | HGplNotin _ => L_GPL_NOTIN | HGplNew _ => L_GPL_NEW
-  | HPtcNone _ _ => L_PTC_NONE | HPtcInit _ _ => L_PTC_INIT | HPtcNotin _ _ => L_PTC_NOTIN
-  | HPtcSet _ _ => L_PTC_SET
-  | HRfcGet _ => L_RFC_GET
-  | HRegGet _ _ => L_REG_GET | HRegSet _ _ _ => L_REG_SET | HRegGet2 _ _ => L_REG_GET2
-  | HRegDel _ => L_REG_DEL
-  | HKfIn _ => L_KF_IN | HKfGet _ => L_KF_GET
-  | HSnap => L_GI_LOOP | HLoop _ => L_GI_LOOP | HDel _ _ => L_GI_DEL
-  | HRead l _ => l
-  | _ => 0
+Inductive sres :=
+| SOk (C : cache) (tr : list Z)
+| SKeyErr (C : cache) (tr : list Z)
+| SFuel (tr : list Z).
+
+Definition s_prepend (p : list Z) (r : sres) : sres :=
+  match r with
+  | SOk C tr => SOk C (p ++ tr)
+  | SKeyErr C tr => SKeyErr C (p ++ tr)
+  | SFuel tr => SFuel (p ++ tr)
   end.
 
-(* the hits that write to a shared map *)
-Definition is_write (h : task) : bool :=
-  match h with
-  | HPtcInit _ _ | HPtcSet _ _ | HRegSet _ _ _ | HRegDel _ | HDel _ _ => true
-  | _ => false
+(* run `step` over a list, threading the cache; stop at the first error *)
+Fixpoint s_seq {A} (step : cache -> A -> sres) (C : cache) (l : list A) : sres :=
+  match l with
+  | [] => SOk C []
+  | x :: r =>
+      match step C x with
+      | SOk C1 tr1 => s_prepend tr1 (s_seq step C1 r)
+      | e => e
+      end
   end.
 
-(* result of executing one hit *)
-Inductive hres :=
-| HOk (sh : shared) (push : list task) (rb : option bool)
-| HCrash (kind : Z).
+(* _plugins_are_cached((t,)) *)
+Definition pac (R : reg) (C : cache) (t : name) : bool * list Z :=
+  match C with
+  | None => (false, [L_PAC_NONE])
+  | Some ks => (memz t ks, [L_PAC_NONE] ++ hash_tr R ++ [L_PAC_IN; L_PAC_GET; L_PAC_ALL; L_PAC_ALL])
+  end.
 
-Definition loop_tasks (ks : list name) : list task :=
-  match ks with
+(* __get_requested_plugins_from_cache(run_id, (t,)) when t is cached *)
+Definition rfc_tr (R : reg) (C : cache) : list Z :=
+  [L_RFC_GET] ++ hash_tr R ++ iter_tr L_RFC_ITER (match C with Some ks => length ks | None => O end).
+
+(* _plugins_to_cache({t: plugin}) *)
+Definition ptc (R : reg) (C : cache) (t : name) : cache * list Z :=
+  match C with
+  | None => (Some [t], hash_tr R ++ [L_PTC_NONE; L_PTC_INIT; L_PTC_SET])
+  | Some ks => (Some (if memz t ks then ks else ks ++ [t]), hash_tr R ++ [L_PTC_NONE; L_PTC_NOTIN; L_PTC_SET])
+  end.
+
+(* __get_plugin(run_id, t) *)
+Fixpoint get_plugin (f : nat) (c : cfgm) (R : reg) (C : cache) (t : name) : sres :=
+  match f with
+  | O => SFuel []
+  | S f' =>
+      let '(b, tr0) := pac R C t in
+      if b then SOk C (tr0 ++ rfc_tr R C)
+      else if negb (mem_reg t R) then SKeyErr C (tr0 ++ [L_GPL_NOTIN])
+      else
+        match s_seq (fun C' d => get_plugin f' c R C' d) C (deps_of c t) with
+        | SOk C1 tr1 =>
+            let '(C2, tr2) := ptc R C1 t in
+            SOk C2 (tr0 ++ [L_GPL_NOTIN; L_GPL_NEW] ++ tr1 ++ tr2)
+        | e => s_prepend (tr0 ++ [L_GPL_NOTIN; L_GPL_NEW]) e
+        end
+  end.
+
+(* the control of the `while targets` loop of _get_plugins: the data types __get_plugin is called for,
+   in order (= the keys of the returned dict).  It does not depend on the cache.  None = the safety
+   counter ran out. *)
+Fixpoint gp_order (f : nat) (c : cfgm) (pending acc : list name) : option (list name) :=
+  match f with
+  | O => None
+  | S f' =>
+      match set_order c pending with
+      | [] => Some acc
+      | t :: more =>
+          if memz t acc then gp_order f' c more acc
+          else gp_order f' c (more ++ deps_of c t) (acc ++ [t])
+      end
+  end.
+
+(* _get_plugins(targets, run_id): (outcome, keys of the returned dict) *)
+Definition get_plugins (c : cfgm) (R : reg) (C : cache) (ts : list name) : sres * list name :=
+  match gp_order (c_fuel c) c ts [] with
+  | None => (SFuel (iter_tr L_GP (length R)), [])
+  | Some order =>
+      (s_prepend (iter_tr L_GP (length R)) (s_seq (get_plugin (c_fuel c) c R) C order), order)
+  end.
+
+(* key_for(run_id, t) *)
+Definition key_for (c : cfgm) (R : reg) (C : cache) (t : name) : sres :=
+  let '(b, tr0) := pac R C t in
+  if b then SOk C (tr0 ++ hash_tr R ++ [L_KF_IN; L_KF_GET] ++ hash_tr R)
+  else s_prepend tr0 (fst (get_plugins c R C [t])).
+
+(* ------------------------------------------------------------------ statements on the registry *)
+(* register(temporary plugin class cl providing t) *)
+Definition register_tr (t : name) (cl : Z) (P : reg) : list Z :=
+  [L_REG_GET; L_REG_SET]
+  ++ (match reg_get t P with Some o => if o =? cl then [] else [L_REG_GET2] | None => [] end)
+  ++ iter_tr L_REG_ITER (length (reg_set t cl P)).
+
+(* for k in list(registry.keys()): if k.startswith('_temp'): del registry[k] *)
+Definition cleanup_tr (R : reg) : list Z :=
+  L_GI_LOOP :: flat_map (fun kv => if is_temp (fst kv) then [L_GI_DEL; L_GI_LOOP] else [L_GI_LOOP]) R.
+Definition cleanup_reg (R : reg) : reg := filter (fun kv => negb (is_temp (fst kv))) R.
+
+(* ------------------------------------------------------------------ threads *)
+Inductive item :=
+| IGetPlugins (ts : list name)           (* a top-level _get_plugins call *)
+| IKeyFor (t : name)                     (* a key_for call *)
+| ICopyReg                               (* get_iter: private copy of the registry *)
+| IRegister (t : name) (cl : Z)          (* self.register(temporary plugin) *)
+| ICleanup                               (* get_iter: the '_temp*' cleanup loop *)
+| IRegRead (l : Z) (t : name)            (* registry[t] in is_stored / stored_dependencies *)
+| IEstimate (ts : list name) (nsf : nat) (* estimate_run_start_and_end via _make_progress_bar *)
+| IMark                                  (* end of the scope in which a KeyError is swallowed *)
+| IEndCall.                              (* get_iter returns: the private registry is gone *)
+
+Inductive status := Running | Done | Crashed (kind : Z) (lbl : Z).
+
+Record shared := mkshared { sh_reg : reg; sh_cache : cache }.
+
+Record thread := mkthread {
+  th_items : list item;
+  th_reg : option reg;            (* the private registry, if this call made one *)
+  th_status : status;
+  th_trace : list Z;              (* labelled lines executed, in order *)
+  th_got : list (list name);      (* keys returned by the _get_plugins calls outside swallowing scopes *)
+  th_steps : list nat }.          (* number of labelled lines of every transition made *)
+
+Definition is_mark (i : item) : bool := match i with IMark => true | _ => false end.
+Definition in_scope (items : list item) : bool := existsb is_mark items.
+Fixpoint pop_to_mark (items : list item) : list item :=
+  match items with
   | [] => []
-  | k :: rest => if is_temp k then [HDel k rest] else [HLoop rest]
-  end.
-
-Definition exec_hit (c : cfgm) (sh : shared) (h : task) : hres :=
-  match h with
-  | HIter l d None =>
-      let dd := deref sh d in
-      match d_items dd with
-      | [] => HOk sh [] None                                   (* created and exhausted at once *)
-      | _ => HOk sh [HIter l d (Some (mkiter 1 (d_size dd) (d_ver dd)))] None
-      end
-  | HIter l d (Some it) =>
-      let dd := deref sh d in
-      if negb (Nat.eqb (d_size dd) (it_size it)) then HCrash K_ITER
-      else if negb (Nat.eqb (d_ver dd) (it_ver it)) then HCrash K_HAZARD
-      else if Nat.ltb (it_pos it) (d_size dd)
-           then HOk sh [HIter l d (Some (mkiter (S (it_pos it)) (it_size it) (it_ver it)))] None
-           else HOk sh [] None
-  | HPacNone t =>
-      match sh_cur sh with
-      | None => HOk sh [] (Some false)
-      | Some _ => HOk sh (ctx_hash ++ [HPacIn t; HPacGet t]) None
-      end
-  | HPacIn t => HOk sh [] None
-  | HPacGet t =>
-      match sh_cur sh with
-      | None => HCrash K_MODEL
-      | Some i => HOk sh [HPacAll1 t i; HPacAll2] None
-      end
-  | HPacAll1 t i => HOk sh [] (Some (d_mem t (deref sh (DCache i))))
-  | HPacAll2 => HOk sh [] None
-  | HGplNotin t => if d_mem t (sh_reg sh) then HOk sh [] None else HCrash K_KEY
-  | HGplNew t =>
-      match d_get t (sh_reg sh) with
-      | None => HCrash K_KEY
-      | Some cl => HOk sh (map MGetPlugin (deps_of c t) ++ ctx_hash ++ [HPtcNone t cl]) None
-      end
-  | HPtcNone t cl =>
-      match sh_cur sh with
-      | None => HOk sh [HPtcInit t cl] None
-      | Some _ => HOk sh [HPtcNotin t cl] None
-      end
-  | HPtcInit t cl =>
-      HOk (mkshared (sh_reg sh) (Some (length (sh_heap sh))) (sh_heap sh ++ [d_empty])) [HPtcSet t cl] None
-  | HPtcNotin t cl => HOk sh [HPtcSet t cl] None
-  | HPtcSet t cl =>
-      match sh_cur sh with
-      | None => HCrash K_MODEL
-      | Some i =>
-          HOk (mkshared (sh_reg sh) (sh_cur sh)
-                        (set_nth i (d_set t cl (nth i (sh_heap sh) d_empty)) (sh_heap sh))) [] None
-      end
-  | HRfcGet t =>
-      match sh_cur sh with
-      | None => HCrash K_MODEL
-      | Some i => HOk sh (ctx_hash ++ [HIter L_RFC_ITER (DCache i) None; MRfcAfter t i]) None
-      end
-  | HRegGet t cl => HOk sh [HRegSet t cl (d_get t (sh_reg sh))] None
-  | HRegSet t cl old =>
-      let sh' := mkshared (d_set t cl (sh_reg sh)) (sh_cur sh) (sh_heap sh) in
-      let dereg := match old with
-                   | Some o => if o =? cl then [] else [HRegGet2 t o]
-                   | None => []
-                   end in
-      HOk sh' (dereg ++ [HIter L_REG_ITER DReg None]) None
-  | HRegGet2 t o =>
-      match d_get t (sh_reg sh) with
-      | Some cur => if cur =? o then HOk sh [HRegDel t] None else HOk sh [] None
-      | None => HOk sh [] None
-      end
-  | HRegDel t =>
-      match d_del t (sh_reg sh) with
-      | None => HCrash K_KEY
-      | Some r => HOk (mkshared r (sh_cur sh) (sh_heap sh)) [] None
-      end
-  | HKfIn t => HOk sh [] None
-  | HKfGet t =>
-      match sh_cur sh with
-      | None => HCrash K_MODEL
-      | Some i => HOk sh (ctx_hash ++ [MKfAfter t i]) None
-      end
-  | HSnap => HOk sh (loop_tasks (d_keys (sh_reg sh))) None
-  | HLoop rest => HOk sh (loop_tasks rest) None
-  | HDel k rest =>
-      match d_del k (sh_reg sh) with
-      | None => HCrash K_KEY
-      | Some r => HOk (mkshared r (sh_cur sh) (sh_heap sh)) [HLoop rest] None
-      end
-  | HRead l t => if d_mem t (sh_reg sh) then HOk sh [] None else HCrash K_KEY
-  | _ => HCrash K_MODEL
-  end.
-
-(* a KeyError inside estimate_run_start_and_end is swallowed by _make_progress_bar *)
-Fixpoint pop_to_mark (st : list task) : option (list task) :=
-  match st with
-  | [] => None
-  | MMark :: r => Some r
+  | IMark :: r => r
   | _ :: r => pop_to_mark r
   end.
 
-Definition crash (th : thread) (kind lbl : Z) : thread :=
-  match (if kind =? K_KEY then pop_to_mark (th_stack th) else None) with
-  | Some r => mkthread r Running (th_rb th) (th_names th) (th_trace th) (th_got th)
-  | None => mkthread (th_stack th) (Crashed kind lbl) (th_rb th) (th_names th) (th_trace th) (th_got th)
+Definition cur_reg (sh : shared) (th : thread) : reg :=
+  match th_reg th with Some p => p | None => sh_reg sh end.
+
+Definition last_lbl (tr : list Z) : Z := last tr 0.
+
+(* skip the silent items; an empty stack means the thread is done *)
+Fixpoint settle_items (items : list item) (P : option reg) : list item * option reg :=
+  match items with
+  | IMark :: r => settle_items r P
+  | IEndCall :: r => settle_items r None
+  | _ => (items, P)
   end.
 
-Definition is_hit (h : task) : bool := negb (label_of h =? 0).
-
-(* expand macros until a hit is on top (or the stack is empty: the thread is done) *)
-Fixpoint normalise (c : cfgm) (fuel : nat) (sh : shared) (lbl : Z) (th : thread) : thread :=
+Definition settle (th : thread) : thread :=
   match th_status th with
   | Running =>
-    match th_stack th with
-    | [] => mkthread [] Done (th_rb th) (th_names th) (th_trace th) (th_got th)
-    | h :: rest =>
-      if is_hit h then th else
-      match fuel with
-      | O => mkthread (th_stack th) (Crashed K_MODEL lbl) (th_rb th) (th_names th) (th_trace th) (th_got th)
-      | S f =>
-        let set_stack s := mkthread s Running (th_rb th) (th_names th) (th_trace th) (th_got th) in
-        match h with
-        | MGetPlugin t => normalise c f sh lbl (set_stack (HPacNone t :: MGetPluginBranch t :: rest))
-        | MGetPluginBranch t =>
-            normalise c f sh lbl
-              (set_stack ((if th_rb th then [HRfcGet t] else [HGplNotin t; HGplNew t]) ++ rest))
-        | MGetPlugins ts => normalise c f sh lbl (set_stack (HIter L_GP DReg None :: MGPLoop ts [] :: rest))
-        | MGPLoop pending acc =>
-            match set_order c pending with
-            | [] => normalise c f sh lbl
-                      (mkthread rest Running (th_rb th) acc (th_trace th) (acc :: th_got th))
-            | t :: more =>
-                if memz t acc then normalise c f sh lbl (set_stack (MGPLoop more acc :: rest))
-                else normalise c f sh lbl
-                       (set_stack (MGetPlugin t :: MGPLoop (more ++ deps_of c t) (acc ++ [t]) :: rest))
-            end
-        | MKeyFor t => normalise c f sh lbl (set_stack (HPacNone t :: MKeyForBranch t :: rest))
-        | MKeyForBranch t =>
-            normalise c f sh lbl
-              (set_stack ((if th_rb th then ctx_hash ++ [HKfIn t; HKfGet t] else [MGetPlugins [t]]) ++ rest))
-        | MRfcAfter t i =>
-            if d_mem t (deref sh (DCache i)) then normalise c f sh lbl (set_stack rest)
-            else normalise c f sh lbl (crash (set_stack rest) K_KEY lbl)
-        | MKfAfter t i =>
-            if d_mem t (deref sh (DCache i)) then normalise c f sh lbl (set_stack rest)
-            else normalise c f sh lbl (crash (set_stack rest) K_KEY lbl)
-        | MEstimate ts nsf => normalise c f sh lbl (set_stack (MGetPlugins ts :: MEstLoop nsf :: MMark :: rest))
-        | MEstLoop nsf =>
-            normalise c f sh lbl
-              (set_stack (flat_map (fun t => repeat (MKeyFor t) nsf ++ [HRead 25 t]) (th_names th) ++ rest))
-        | MMark => normalise c f sh lbl (set_stack rest)
-        | _ => th
-        end
-      end
-    end
+      let '(items, P) := settle_items (th_items th) (th_reg th) in
+      mkthread items P (match items with [] => Done | _ => Running end)
+               (th_trace th) (th_got th) (th_steps th)
   | _ => th
   end.
 
-(* one transition of a thread: execute the hit on top of its stack, then run on to the next hit *)
+(* the thread continues after a step that executed the lines tr *)
+Definition advance (th : thread) (items : list item) (P : option reg) (tr : list Z)
+           (got : list (list name)) : thread :=
+  settle (mkthread items P Running (th_trace th ++ tr) (th_got th ++ got) (th_steps th ++ [length tr])).
+
+(* an error of kind k after the lines tr; rest = the items after the failing one *)
+Definition fail (th : thread) (rest : list item) (k : Z) (tr : list Z) : thread :=
+  if (k =? K_KEY) && in_scope rest
+  then advance th (pop_to_mark rest) (th_reg th) tr []
+  else mkthread rest (th_reg th) (Crashed k (last_lbl (th_trace th ++ tr))) (th_trace th ++ tr) (th_got th)
+                (th_steps th ++ [length tr]).
+
+Definition with_cache (sh : shared) (C : cache) : shared := mkshared (sh_reg sh) C.
+
 Definition step_thread (c : cfgm) (sh : shared) (th : thread) : shared * thread :=
   match th_status th with
   | Running =>
-    match th_stack th with
-    | [] => (sh, mkthread [] Done (th_rb th) (th_names th) (th_trace th) (th_got th))
-    | h :: rest =>
-        let lbl := label_of h in
-        let tr := lbl :: th_trace th in
-        match exec_hit c sh h with
-        | HOk sh' push rb =>
-            let th' := mkthread (push ++ rest) Running
-                                (match rb with Some b => b | None => th_rb th end)
-                                (th_names th) tr (th_got th) in
-            (sh', normalise c (c_fuel c) sh' lbl th')
-        | HCrash kind =>
-            let th' := mkthread rest Running (th_rb th) (th_names th) tr (th_got th) in
-            (sh, normalise c (c_fuel c) sh lbl (crash th' kind lbl))
-        end
-    end
+      match th_items th with
+      | [] => (sh, settle th)
+      | it :: rest =>
+          let R := cur_reg sh th in
+          match it with
+          | IGetPlugins ts =>
+              match get_plugins c R (sh_cache sh) ts with
+              | (SOk C tr, names) =>
+                  (with_cache sh C, advance th rest (th_reg th) tr (if in_scope rest then [] else [names]))
+              | (SKeyErr C tr, _) => (with_cache sh C, fail th rest K_KEY tr)
+              | (SFuel tr, _) => (sh, fail th rest K_MODEL tr)
+              end
+          | IKeyFor t =>
+              match key_for c R (sh_cache sh) t with
+              | SOk C tr => (with_cache sh C, advance th rest (th_reg th) tr [])
+              | SKeyErr C tr => (with_cache sh C, fail th rest K_KEY tr)
+              | SFuel tr => (sh, fail th rest K_MODEL tr)
+              end
+          | ICopyReg => (sh, advance th rest (Some (sh_reg sh)) [L_COPY] [])
+          | IRegister t cl =>
+              match th_reg th with
+              | None => (sh, fail th rest K_MODEL [L_REG_GET])       (* would write the shared registry *)
+              | Some P => (sh, advance th rest (Some (reg_set t cl P)) (register_tr t cl P) [])
+              end
+          | ICleanup =>
+              match th_reg th with
+              | Some P => (sh, advance th rest (Some (cleanup_reg P)) (cleanup_tr P) [])
+              | None =>
+                  if existsb (fun kv => is_temp (fst kv)) (sh_reg sh)
+                  then (sh, fail th rest K_MODEL [L_GI_LOOP])          (* would write the shared registry *)
+                  else (sh, advance th rest None (cleanup_tr (sh_reg sh)) [])
+              end
+          | IRegRead l t =>
+              if mem_reg t R then (sh, advance th rest (th_reg th) [l] [])
+              else (sh, fail th rest K_KEY [l])
+          | IEstimate ts nsf =>
+              match get_plugins c R (sh_cache sh) ts with
+              | (SOk C tr, names) =>
+                  (with_cache sh C,
+                   advance th (flat_map (fun t => repeat (IKeyFor t) nsf ++ [IRegRead L_IS_READ t]) names
+                               ++ IMark :: rest) (th_reg th) tr [])
+              | (SKeyErr C tr, _) => (with_cache sh C, advance th rest (th_reg th) tr [])   (* swallowed *)
+              | (SFuel tr, _) => (sh, fail th rest K_MODEL tr)
+              end
+          | IMark => (sh, settle th)
+          | IEndCall => (sh, settle th)
+          end
+      end
   | _ => (sh, th)
   end.
 
 Record sys := mksys { s_sh : shared; s_ths : list thread }.
 
-Definition th_dummy : thread := mkthread [] Done false [] [] [].
+Fixpoint set_nth {A} (i : nat) (x : A) (l : list A) : list A :=
+  match l with [] => [] | y :: r => match i with O => x :: r | S j => y :: set_nth j x r end end.
 
 Definition sys_step (c : cfgm) (s : sys) (tid : nat) : sys :=
   match nth_error (s_ths s) tid with
@@ -384,30 +319,100 @@ Definition sys_step (c : cfgm) (s : sys) (tid : nat) : sys :=
 
 Fixpoint run_sched (c : cfgm) (s : sys) (sched : list nat) : sys :=
   match sched with [] => s | t :: r => run_sched c (sys_step c s t) r end.
-
-(* let thread tid run alone for at most n steps *)
 Fixpoint run_alone (c : cfgm) (n : nat) (s : sys) (tid : nat) : sys :=
   match n with O => s | S m => run_alone c m (sys_step c s tid) tid end.
-
-(* after the schedule, every thread runs to completion, in thread order *)
 Fixpoint drain (c : cfgm) (n : nat) (s : sys) (tids : list nat) : sys :=
   match tids with [] => s | t :: r => drain c n (run_alone c n s t) r end.
 
-(* initial thread from a skeleton (list of top-level tasks) *)
-Definition init_thread (c : cfgm) (sh : shared) (prog : list task) : thread :=
-  normalise c (c_fuel c) sh 0 (mkthread prog Running false [] [] []).
+Definition init_thread (prog : list item) : thread := settle (mkthread prog None Running [] [] []).
+Definition init_sys (sh : shared) (progs : list (list item)) : sys := mksys sh (map init_thread progs).
+Definition run_all (c : cfgm) (sh : shared) (progs : list (list item)) (sched : list nat) (n : nat) : sys :=
+  drain c n (run_sched c (init_sys sh progs) sched) (seq 0 (length progs)).
 
-Definition init_sys (c : cfgm) (sh : shared) (progs : list (list task)) : sys :=
-  mksys sh (map (init_thread c sh) progs).
+Definition th_crashed (th : thread) : bool := match th_status th with Crashed _ _ => true | _ => false end.
+Definition th_done (th : thread) : bool := match th_status th with Done => true | _ => false end.
 
-Definition run_all (c : cfgm) (sh : shared) (progs : list (list task)) (sched : list nat) (n : nat) : sys :=
-  drain c n (run_sched c (init_sys c sh progs) sched) (seq 0 (length progs)).
+(* ------------------------------------------------------------------ well-formed call skeletons *)
+(* every data type reachable from t through depends_on (within the fuel) is registered in R *)
+Fixpoint closed (f : nat) (c : cfgm) (R : reg) (t : name) : bool :=
+  match f with
+  | O => false
+  | S f' => mem_reg t R && forallb (closed f' c R) (deps_of c t)
+  end.
+(* the dependency chains below t are shorter than the fuel *)
+Fixpoint depth_ok (f : nat) (c : cfgm) (t : name) : bool :=
+  match f with
+  | O => false
+  | S f' => forallb (depth_ok f' c) (deps_of c t)
+  end.
 
-Definition th_crashed (th : thread) : bool :=
-  match th_status th with Crashed _ _ => true | _ => false end.
-Definition th_done (th : thread) : bool :=
-  match th_status th with Done => true | _ => false end.
+Definition gp_closed (c : cfgm) (R : reg) (ts : list name) : bool :=
+  match gp_order (c_fuel c) c ts [] with
+  | None => false
+  | Some o => forallb (closed (c_fuel c) c R) o
+  end.
+Definition gp_nofuel (c : cfgm) (ts : list name) : bool :=
+  match gp_order (c_fuel c) c ts [] with
+  | None => false
+  | Some o => forallb (depth_ok (c_fuel c) c) o
+  end.
+Definition est_ok (c : cfgm) (ts : list name) : bool :=
+  match gp_order (c_fuel c) c ts [] with
+  | None => false
+  | Some o => forallb (depth_ok (c_fuel c) c) o && forallb (fun t => gp_nofuel c [t]) o
+  end.
 
-(* run-length encoded schedules *)
+(* symbolic execution of the registry statements of a skeleton: P = the private registry in effect.
+   Outside a swallowing scope every name a section may have to build must be registered, every registry
+   read must hit, registry writes need a private registry; inside a swallowing scope (the items before an
+   IMark) there are only sections and registry reads. *)
+Fixpoint wf_items (c : cfgm) (R0 : reg) (P : option reg) (items : list item) : bool :=
+  match items with
+  | [] => true
+  | it :: rest =>
+      let R := match P with Some p => p | None => R0 end in
+      match it with
+      | IGetPlugins ts => (if in_scope rest then gp_nofuel c ts else gp_closed c R ts) && wf_items c R0 P rest
+      | IKeyFor t => (if in_scope rest then gp_nofuel c [t] else gp_closed c R [t]) && wf_items c R0 P rest
+      | ICopyReg => negb (in_scope rest) && wf_items c R0 (Some R0) rest
+      | IRegister t cl =>
+          negb (in_scope rest) &&
+          match P with None => false | Some p => wf_items c R0 (Some (reg_set t cl p)) rest end
+      | ICleanup =>
+          negb (in_scope rest) &&
+          match P with
+          | Some p => wf_items c R0 (Some (cleanup_reg p)) rest
+          | None => negb (existsb (fun kv => is_temp (fst kv)) R0) && wf_items c R0 None rest
+          end
+      | IRegRead l t => (in_scope rest || mem_reg t R) && wf_items c R0 P rest
+      | IEstimate ts nsf => est_ok c ts && wf_items c R0 P rest
+      | IMark => wf_items c R0 P rest
+      | IEndCall => negb (in_scope rest) && wf_items c R0 None rest
+      end
+  end.
+
+(* what the _get_plugins calls of a skeleton return (outside swallowing scopes), whatever the cache *)
+Fixpoint exp_got (c : cfgm) (items : list item) : list (list name) :=
+  match items with
+  | [] => []
+  | IGetPlugins ts :: rest =>
+      (if in_scope rest then [] else
+         match gp_order (c_fuel c) c ts [] with Some o => [o] | None => [] end) ++ exp_got c rest
+  | _ :: rest => exp_got c rest
+  end.
+
+(* an upper bound of the number of transitions a skeleton takes *)
+Definition item_weight (c : cfgm) (i : item) : nat :=
+  match i with
+  | IEstimate ts nsf =>
+      match gp_order (c_fuel c) c ts [] with
+      | Some o => 2 + length o * S nsf
+      | None => 2
+      end
+  | _ => 1
+  end.
+Definition prog_weight (c : cfgm) (items : list item) : nat :=
+  fold_right (fun i a => item_weight c i + a)%nat O items.
+
 Fixpoint rle (l : list (nat * nat)) : list nat :=
   match l with [] => [] | (t, n) :: r => repeat t n ++ rle r end.
